@@ -1,0 +1,17 @@
+//go:build verif
+
+package cloudprovider
+
+// Fifth hook file for the C12 correspondence harness (/verif): the options a CachedCloudProvider
+// was constructed with, so that the configuration path of cmd/gostatsd can be checked.
+// Add-only; compiled only with -tags verif.
+
+import "github.com/atlassian/gostatsd"
+
+// VerifOptions returns the cache options and the rate limiter's rate (requests / s) and burst.
+func (ccp *CachedCloudProvider) VerifOptions() (gostatsd.CacheOptions, float64, int) {
+	if ccp.limiter == nil {
+		return ccp.cacheOpts, 0, 0
+	}
+	return ccp.cacheOpts, float64(ccp.limiter.Limit()), ccp.limiter.Burst()
+}
